@@ -97,7 +97,7 @@ class _RunFilter(object):
 
         for run_filter in run_filters:
             parts = run_filter.split(":")
-            if parts[0] == "e":
+            if parts[0] == "e" and len(parts) == 2:
                 self._executor_filters.append(_ExecutorFilter(parts[1]))
             elif parts[0] == "s" and len(parts) == 2:
                 self._suite_filters.append(_SuiteFilter(parts[1]))
